@@ -1,4 +1,6 @@
 import Orca.Lemmas.SemSim
+import Orca.Gen.ResolverOutline
+import Orca.Model.ResolverOutlineSpec
 import Orca.Lemmas.SemBranch
 import Orca.Lemmas.SpecialFlat
 import Orca.Lemmas.StackSpec
@@ -88,3 +90,9 @@ theorem c18_flat_every_plan (f : Func) (hsp : f.hasSpecial = true) (hentry : f.e
   lower_eq_spec f hsp hentry hexit hp out hs
 
 end Orca.Lower
+
+/-- **The tie to the source (regenerated on every run).** The skeleton of `resolve_block_entry` is what the first stage of
+    `planSpecial` was transcribed from: on the four block-structured operators the probe becomes `after` code of the opener, with no
+    guard and no other exit. -/
+theorem c18_block_entry_code_reviewed :
+    Orca.Gen.Outline.resolve_block_entry = Orca.Lower.Outline.resolve_block_entry := rfl
